@@ -1001,6 +1001,92 @@ func (rn *Runner) exec(ctx *core.Ctx, ev *Event, op []string) string {
 			fl = 1
 		}
 		return fmt.Sprintf("ok c=%d f=%d r=%s", col, fl, ev.RaceCode)
+	case "delr":
+		// delr <spec A> up <spec B> <pin>  |  delr <spec A> del <spec B> -
+		// DELETE /aurora/{A} is held at the entry of ChunkInfo.DelFile (everything the handler does before
+		// DelFile has happened, nothing of what DelFile serialises has); meanwhile the second operation — an
+		// upload of B or a complete DELETE of B — runs to completion through the API; then the held delete
+		// continues.  DelFile takes chunkinfo's syncLk, so in the real system the two are serialised in exactly
+		// this order: B's operation, then A's list-and-remove.
+		if len(op) != 5 || (op[2] != "up" && op[2] != "del") {
+			return skip(ev, "bad-op")
+		}
+		_, okA := ParseSpec(op[1])
+		subsB, okB := ParseSpec(op[3])
+		if !okA || !okB || op[1] == op[3] {
+			return skip(ev, "bad-op")
+		}
+		if (op[2] == "up" && op[4] != "0" && op[4] != "1") || (op[2] == "del" && op[4] != "-") {
+			return skip(ev, "bad-op")
+		}
+		fa, fb := rn.lookup(op[1]), rn.lookup(op[3])
+		if fa == nil || (op[2] == "del" && fb == nil) {
+			return skip(ev, "nofile")
+		}
+		if fa.Enc || (fb != nil && fb.Enc) {
+			return skip(ev, "bad-op")
+		}
+		if !rn.known(fa, ev.Before) || !rn.Complete(fa, ev.Before) {
+			return skip(ev, "unstable")
+		}
+		if op[2] == "del" && (!rn.known(fb, ev.Before) || !rn.Complete(fb, ev.Before)) {
+			return skip(ev, "unstable")
+		}
+		ev.File = fa
+		ev.RaceCode = "-"
+		during := func() {
+			ev.Mid0 = rn.Snapshot()
+			if op[2] == "del" {
+				ev.Target = fb
+				ev.RaceCode = strconv.Itoa(n.Delete(fb.Root))
+			} else {
+				var (
+					ref     boson.Address
+					written []boson.Address
+					code    int
+					err     error
+				)
+				pin := op[4] == "1"
+				if len(subsB) == 1 {
+					ref, written, code, err = n.Upload(subsB[0].Name, contentOf(subsB[0].Letters), pin, false)
+				} else {
+					var files []DirFile
+					for _, s := range subsB {
+						files = append(files, DirFile{Path: s.Name, Content: contentOf(s.Letters)})
+					}
+					ref, written, code, err = n.UploadDir(files, pin)
+				}
+				ev.RaceCode = strconv.Itoa(code)
+				if err != nil {
+					ctx.Fail("harness-upload", "%v", err)
+					return
+				}
+				f := fb
+				if f == nil {
+					f = &File{Spec: op[3], Subs: subsB}
+					rn.files[op[3]] = f
+					rn.order = append(rn.order, op[3])
+				} else if !f.Root.Equal(ref) {
+					ctx.Fail("harness-structure", "second upload of %s gives another reference", op[3])
+				}
+				f.Root = ref
+				f.Writes = written
+				rn.learn(ctx, n, f, written)
+				f.AtN = true
+				for _, a := range written {
+					rn.Uploaded[a.String()] = true
+				}
+				ev.Target = f
+				rn.annotateStruct(ctx, f)
+			}
+			ev.Mid1 = rn.Snapshot()
+		}
+		code, fired := n.DeleteHeld(fa.Root, during)
+		ev.Code, ev.Fired = code, fired
+		if !fired {
+			ctx.Fail("harness-delete-hold", "DELETE of %s never reached ChunkInfo.DelFile (status %d)", op[1], code)
+		}
+		return fmt.Sprintf("%d r=%s", code, ev.RaceCode)
 	}
 
 	// ops on one file
